@@ -319,6 +319,82 @@ def _lean_terms(ts):
     return "[" + ", ".join("(%d, %d, %d, %d, %d)" % t for t in ts) + "]"
 
 
+# ---- hash_table_state_is_valid: the integer conjuncts, re-translated through gen/cfun.py
+_VALID_INT_FIELDS = ["size", "entry_count", "max_load", "mask"]
+
+
+def state_valid(repo):
+    """`hash_table_state_is_valid` must be: `if (!map) { return false; }`, a list of `bool NAME = EXPR;`, and
+    `return NAME && NAME && ...;` over exactly those names.  The conjuncts that only read the integer fields
+    size / entry_count / max_load / mask (and call aws_is_power_of_two) are put into a stub function and translated by
+    gen/cfun.py; the others (pointer non-NULL tests, the load-factor double, the slots allocation) are listed by name."""
+    from gen import cfun, bytebuf_fns
+    path = os.path.join(repo, "source", "hash_table.c")
+    src = strip_c_comments(open(path).read())
+    try:
+        body = bytebuf_fns.function_body(src, "hash_table_state_is_valid")
+    except cfun.GenError:
+        raise core.GenError("hash_table_state_is_valid not found in hash_table.c")
+    body = " ".join(body.strip()[1:-1].split())
+    m = re.match(r"if \( ?!map ?\) \{ return false; \} ", body)
+    if not m:
+        raise core.GenError("hash_table_state_is_valid no longer starts with `if (!map) { return false; }`")
+    stmts = [x.strip() for x in body[m.end():].split(";") if x.strip()]
+    decls, ret = [], None
+    for st in stmts:
+        md = re.fullmatch(r"bool (\w+) = (.*)", st)
+        if md and ret is None:
+            decls.append((md.group(1), md.group(2)))
+            continue
+        mr = re.fullmatch(r"return (.*)", st)
+        if mr and ret is None:
+            ret = [x.strip() for x in mr.group(1).split("&&")]
+            continue
+        raise core.GenError(f"hash_table_state_is_valid: unexpected statement `{st}`")
+    names = [d[0] for d in decls]
+    if ret is None or sorted(ret) != sorted(names) or len(set(ret)) != len(ret):
+        raise core.GenError(f"hash_table_state_is_valid: the returned conjunction {ret} is not exactly the declared conditions {names}")
+    params = ["map_" + f for f in _VALID_INT_FIELDS]
+    ints, others = [], []
+    for name, expr in decls:
+        e = re.sub(r"\bmap\s*->\s*(\w+)", r"map_\1", expr)
+        ids = set(re.findall(r"\b[A-Za-z_]\w*\b", e))
+        if ids <= set(params) | {"aws_is_power_of_two"} and ids & set(params):
+            ints.append((name, expr, e))
+        else:
+            others.append((name, expr))
+    for need in ("size", "entry_count", "max_load", "mask"):
+        if not any(("map_" + need) in e for _, _, e in ints):
+            raise core.GenError(f"hash_table_state_is_valid no longer constrains map->{need}")
+    stub = ("static bool verif_ht_state_valid_int(" + ", ".join("size_t " + q for q in params) + ") { " +
+            " ".join(f"bool {n} = {e};" for n, _, e in ints) + " return " + " && ".join(n for n, _, _ in ints) + "; }\n")
+    inc = ["-I" + os.path.join(repo, "include"), "-I" + cbuild.config_include(), "-I" + os.path.join(repo, "source")]
+    nodes = cfun.dump_functions(f'#include "{path}"\n' + stub, "verif_ht_state_valid_int", inc)
+    if "verif_ht_state_valid_int" not in nodes:
+        raise core.GenError("stub for hash_table_state_is_valid was not parsed")
+
+    def resolve(cname):
+        if cname == "aws_is_power_of_two":
+            return ("Math.MathInl.aws_is_power_of_two", {"kind": "value", "params": [("x", (64, False))], "ret": (1, False)})
+        return None
+    try:
+        tr = cfun.FnTranslator(bytebuf_fns.prepare(nodes["verif_ht_state_valid_int"]), "stateValidInt", resolve, {}, fuel=8)
+        text, info = tr.translate()
+    except cfun.GenError as e:
+        raise core.GenError("hash_table_state_is_valid: " + str(e))
+    doc = "; ".join(f"{n} = {x}" for n, x, _ in ints)
+    core.write_if_changed(os.path.join(core.LEAN, "AwsVerif", "Gen", "HashValid.lean"),
+        "import AwsVerif.Gen.Math\n"
+        "/-! GENERATED from `hash_table_state_is_valid` in /repo/source/hash_table.c by props/c02_gen.py (through gen/cfun.py); do not edit. -/\n"
+        "set_option linter.unusedVariables false\n"
+        "namespace AwsVerif.Gen.HashValid\nopen AwsVerif.Gen\n\n"
+        f"/-- the conjuncts of `hash_table_state_is_valid` that read the integer fields, as written: {doc} -/\n"
+        + text + "\n\n"
+        "/-- the remaining conjuncts (non-NULL tests, the load-factor double, the slots allocation), by name -/\n"
+        "def stateValidOther : List String := [" + ", ".join('"' + n + '"' for n, _ in others) + "]\n\n"
+        "end AwsVerif.Gen.HashValid\n")
+
+
 def regen(ctx=None):
     repo = cbuild.REPO
     mix, fin, basis, sinit, pinit = lookup3_constants(repo)
@@ -328,6 +404,7 @@ def regen(ctx=None):
         raise core.GenError("lookup3: -DVALGRIND changes more than the tail switch of the 32-bit path")
     _write_paths(paths, vpaths)
     _write_rest(repo, mix, fin, basis, sinit, pinit)
+    state_valid(repo)
     # last: every generated file is in place (the model driver can still be built) when this raises
     check_paths(paths, (mix, fin, basis))
     check_paths(vpaths[:1], (mix, fin, basis), " in the -DVALGRIND configuration")
